@@ -532,4 +532,89 @@ Section Sub1.
     pose proof (inv_run _ _ _ _ _ inv_init G) as I.
     apply inv_exact; auto. eapply nocap_nolag; eassumption.
   Qed.
+
+  (* ---------- lag bound ---------- *)
+  Lemma alive_mono : forall c l c', cstep c l = Some c' -> c_alive c' = true -> c_alive c = true.
+  Proof.
+    intros c l c' H Al. destruct c as [pc bl mb got alive]. cbn in *.
+    destruct l; cbn in H.
+    - destruct pc; inversion H; subst; assumption.
+    - destruct pc; inversion H; subst; assumption.
+    - destruct pc; try discriminate. destruct bl; [discriminate|].
+      destruct (lagging cap (n :: bl)); inversion H; subst; assumption.
+    - destruct pc; try discriminate. destruct (conv m); [destruct alive|]; inversion H; subst; cbn in *; congruence.
+    - destruct alive; [reflexivity|discriminate].
+    - destruct alive; [reflexivity|discriminate].
+    - destruct pc; inversion H; subst; assumption.
+  Qed.
+
+  Lemma alive_mono_run : forall ls c g c' g', grun c g ls = Some (c', g') -> c_alive c' = true -> c_alive c = true.
+  Proof.
+    induction ls as [|l t IH]; intros c g c' g' H Al; cbn in H.
+    - inversion H; subst. assumption.
+    - destruct (cstep c l) as [c1|] eqn:E; [|discriminate].
+      eapply alive_mono; [eassumption|]. eapply IH; eassumption.
+  Qed.
+
+  Lemma active_held_taken : forall c g, Inv c g -> active c = true -> taken g = g_cast g ++ held c.
+  Proof.
+    intros c g I A. destruct (j_cast _ _ I) as (x & T & X). rewrite T. f_equal. apply X.
+    unfold active in A. destruct (c_pc c); try discriminate; congruence.
+  Qed.
+
+  (* a segment of a run without Lagged: whatever was pending at its start and whatever is
+     published during it is delivered in order or still pending at its end; nothing is lost *)
+  Lemma no_lag_delivery : forall ls c g c' g', Inv c g -> grun c g ls = Some (c', g') ->
+    active c = true -> active c' = true -> c_alive c' = true -> g_lags g' = g_lags g ->
+    c_got c' ++ c_mbox c' ++ filter_map conv (held c' ++ c_backlog c')
+    = c_got c ++ c_mbox c ++ filter_map conv (held c ++ c_backlog c ++ apubs_on ls).
+  Proof.
+    intros ls c g c' g' I H A A' Al' L.
+    pose proof (inv_run _ _ _ _ _ I H) as I'.
+    pose proof (alive_mono_run _ _ _ _ _ H Al') as Al.
+    destruct (no_lag_complete _ _ _ _ _ I H A A' L) as (h & np & Hh & F & Hp & Hb).
+    assert (Hnp : np = apubs_on ls).
+    { pose proof (pubs_on_run _ _ _ _ _ H) as Q.
+      assert (c_pc c <> ANone) as Hn by (unfold active in A; destruct (c_pc c); congruence).
+      specialize (Q Hn). rewrite Hp in Q. apply app_inv_head in Q. exact Q. }
+    subst np.
+    destruct (j_got _ _ I) as (rest & Gr & Ar). specialize (Ar Al). subst rest.
+    destruct (j_got _ _ I') as (rest' & Gr' & Ar'). specialize (Ar' Al'). subst rest'.
+    pose proof (active_held_taken _ _ I A) as T. pose proof (active_held_taken _ _ I' A') as T'.
+    assert (Tk : taken g' = taken g ++ map fst h).
+    { unfold taken. rewrite Hh, filter_app, map_app. f_equal.
+      clear - F. induction h as [|[x b] t IHh]; [reflexivity|]. cbn in F. apply andb_true_iff in F.
+      destruct F as [F1 F2]. cbn in F1. subst b. cbn. rewrite IHh by assumption. reflexivity. }
+    rewrite !app_assoc, Gr, Gr', <- !filter_map_app.
+    f_equal. rewrite <- !app_assoc.
+    rewrite (app_assoc (g_cast g')), <- T', Tk, (app_assoc (g_cast g)), <- T, <- !app_assoc, Hb. reflexivity.
+  Qed.
+
+  Theorem sub1_nolag_prefix : forall k ls c, cap = Some k -> crun ainit ls = Some c ->
+    always cap conv (fun c => length (c_backlog c) <= k) ainit ls ->
+    prefix (c_got c) (filter_map conv (apubs ls))
+    /\ (active c = true -> c_alive c = true ->
+        c_got c ++ c_mbox c ++ filter_map conv (held c ++ c_backlog c) = filter_map conv (apubs ls)).
+  Proof.
+    intros k ls c Hc H Al. destruct (crun_grun _ _ ginit _ H) as (g & G).
+    rewrite <- (pubs_run _ _ _ _ _ G eq_refl eq_refl).
+    pose proof (inv_run _ _ _ _ _ inv_init G) as I.
+    pose proof (lag_needs_behind k _ _ _ _ _ Hc Al G) as L. cbn in L.
+    split; [apply inv_prefix; assumption|]. intros A Alv. apply inv_exact; assumption.
+  Qed.
+
+  Theorem sub1_after_lag : forall k l1 l2 c1 c2, cap = Some k ->
+    crun ainit l1 = Some c1 -> crun c1 l2 = Some c2 ->
+    always cap conv (fun c => length (c_backlog c) <= k) c1 l2 ->
+    active c1 = true -> active c2 = true -> c_alive c2 = true ->
+    c_got c2 ++ c_mbox c2 ++ filter_map conv (held c2 ++ c_backlog c2)
+    = c_got c1 ++ c_mbox c1 ++ filter_map conv (held c1 ++ c_backlog c1 ++ apubs_on l2).
+  Proof.
+    intros k l1 l2 c1 c2 Hc H1 H2 Al A1 A2 Alv.
+    destruct (crun_grun _ _ ginit _ H1) as (g1 & G1).
+    destruct (crun_grun _ _ g1 _ H2) as (g2 & G2).
+    pose proof (inv_run _ _ _ _ _ inv_init G1) as I1.
+    eapply no_lag_delivery; try eassumption.
+    eapply lag_needs_behind; eassumption.
+  Qed.
 End Sub1.
